@@ -107,6 +107,15 @@ class Env(object):
     self.last_iterable = r
     return r
 
+  def it3(self, site):
+    self.last_site = site
+    self.site_fresh = True
+    n = self.choose(3)
+    self.log.append(('it3', site, n))
+    r = [(site * 100 + 80 + j, (site * 100 + j, site * 100 + 50 + j)) for j in range(n)]
+    self.last_iterable = r
+    return r
+
   def t(self, site, *vals):
     self.log.append(('t', site) + tuple(srepr(v) for v in vals))
     return vals[-1] if vals else None
